@@ -406,6 +406,10 @@ def task_sections(pr, repo):
             g_.attrs['label'] = 'LYS  97 A' if i_ in (0, 6) else 'GRP %d' % i_
             g_.attrs['atom'].attrs.update(type='atom', res_num=97 if i_ in (0, 6) else i_)
         conf = record('conf', None, groups=groups, chains=['A', 'B'], non_covalently_coupled_groups=False)
+        # of the two equally labelled groups only the first has a coupled partner
+        for i_, g_ in enumerate(groups):
+            g_.attrs['non_covalently_coupled_groups'] = [groups[1]] if i_ == 0 else []
+        conf.attrs['get_non_covalently_coupled_groups'] = Builtin('gnccg', lambda ex: [groups[0]])
         params = record('P', repo.cls('propka.parameters.Parameters'), write_out_order=order, remove_penalised_group=flag)
         mol = record('mol', None, conformations={'AVR': conf}, options=record('o', None, display_coupled_residues=False))
         ex.contracts['propka.output.get_determinants_header'] = lambda *a: 'HDR'
@@ -428,6 +432,14 @@ def task_sections(pr, repo):
             return out
         ctx.oblige('SE: determinant section and summary section each print every group whose type is in write_out_order exactly once, '
                    'and no other group', sorted(flat(s1)) == [0, 1, 2, 3, 4, 6] and sorted(flat(s2)) == [0, 1, 2, 3, 4, 6])
+        # whether a row is starred is the row's own business (its group's partner list): if the section passes anything about
+        # coupling, it must be true of THAT group, not of its label
+        own = [True, None, None, None, None, None, False]
+        extra = [(which, k.get('coupled', 'ABSENT')) for which, a, k in flags]
+        det_calls = [k.get('coupled', 'ABSENT') for which, a, k in flags if which == 'DET']
+        ctx.oblige('SE: the star of a determinant row is decided for the group of that row (two groups with one label, one coupled)',
+                   all(v == 'ABSENT' for v in det_calls) or (len(det_calls) == 6 and det_calls[0] in (True,) and det_calls[-1] in (False, None)
+                                                             and all(v in (False, None) for v in det_calls[1:])))
         passed = [(a[0] if a else k.get('remove_penalised_group')) for _, a, k in flags]
         ctx.oblige('SE: both sections hand the remove_penalised_group setting OF THE PARAMETER SET IN USE to every row (a group kept by '
                    'the configuration is printed in both tables)', len(passed) == 12 and all(x is flag for x in passed))
